@@ -39,6 +39,57 @@ V("s-part-knowledge-inline", "silent", PART_PROPS, CS,
   "                    knowledge_sat = s.solve()\n                    if not knowledge_sat:\n",
   "                    if not s.solve():\n", note="local inlined")
 
+# ---------------------------------------------------------------------------------- System Z
+SZ = "inference/system_z.py"
+Z_PROPS = ["C02", "C07", "C09"]
+V("s-z-loop-form", "silent", Z_PROPS, SZ, "        [solver.add_assertion(Not(c.make_A_then_not_B())) for c in part]\n",
+  "        for c in part:\n            solver.add_assertion(Not(c.make_A_then_not_B()))\n", note="comprehension -> loop")
+V("s-z-material", "silent", Z_PROPS, SZ, "[solver.add_assertion(Not(c.make_A_then_not_B())) for c in part]",
+  "[solver.add_assertion(c.make_not_A_or_B()) for c in part]", note="¬(A∧¬B) written as ¬A∨B")
+V("s-z-decision-restructured", "silent", Z_PROPS, SZ,
+  "        if not v:\n            return False\n\n        if f:\n            if partition_index == 0:\n                return False\n            return self._rec_inference(solver, partition_index - 1, query)\n        return True\n",
+  "        if v and not f:\n            return True\n        if not v:\n            return False\n        if partition_index == 0:\n            return False\n        return self._rec_inference(solver, partition_index - 1, query)\n",
+  note="decision cascade reordered")
+V("s-z-tests-swapped", "silent", Z_PROPS, SZ,
+  "        solver.push()\n        solver.add_assertion(query.make_A_then_B())\n        v = solver.solve()\n        solver.pop()\n        solver.push()\n        solver.add_assertion(query.make_A_then_not_B())\n        f = solver.solve()\n        solver.pop()\n",
+  "        solver.push()\n        solver.add_assertion(query.make_A_then_not_B())\n        f = solver.solve()\n        solver.pop()\n        solver.push()\n        solver.add_assertion(query.make_A_then_B())\n        v = solver.solve()\n        solver.pop()\n",
+  note="the two independent tests in the other order")
+V("s-z-start-local", "silent", Z_PROPS, SZ,
+  "            result = self._rec_inference(\n                solver, len(self.epistemic_state[\"partition\"]) - 1, query\n            )  # type: ignore\n",
+  "            last = len(self.epistemic_state[\"partition\"]) - 1\n            result = self._rec_inference(solver, last, query)\n", note="start index in a local")
+V("f-z-layer-wrong-formula", "fire", Z_PROPS, SZ, "[solver.add_assertion(Not(c.make_A_then_not_B())) for c in part]", "[solver.add_assertion(c.make_A_then_B()) for c in part]")
+V("f-z-not-v-true", "fire", Z_PROPS, SZ, "        if not v:\n            return False\n", "        if not v:\n            return True\n")
+V("f-z-terminal-layer", "fire", Z_PROPS, SZ, "            if partition_index == 0:\n                return False\n            return self._rec", "            if partition_index == 1:\n                return False\n            return self._rec")
+V("f-z-no-descent", "fire", Z_PROPS, SZ, "return self._rec_inference(solver, partition_index - 1, query)", "return self._rec_inference(solver, partition_index, query)")
+V("f-z-start-off-by-one", "fire", ["C02", "C09"], SZ, "solver, len(self.epistemic_state[\"partition\"]) - 1, query", "solver, len(self.epistemic_state[\"partition\"]) - 2, query")
+V("f-z-missing-pop", "fire", Z_PROPS, SZ, "        v = solver.solve()\n        solver.pop()\n", "        v = solver.solve()\n")
+V("f-z-f-polarity", "fire", Z_PROPS, SZ, "        if f:\n            if partition_index == 0:", "        if not f:\n            if partition_index == 0:")
+V("f-z-ext-taut-polarity", "fire", ["C07"], SZ, "            if not taut_solver.solve():\n                return True\n", "            if taut_solver.solve():\n                return True\n")
+V("f-z-ext-inf-soft", "fire", ["C07"], SZ, "                solver.add_assertion(c.make_not_A_or_B())\n                solver.push()\n", "                solver.push()\n")
+
+# ---------------------------------------------------------------------------------- System W (rc2)
+SW = "inference/system_w.py"
+W_PROPS = ["C03", "C11"]
+V("s-w-soft-loop", "silent", W_PROPS, SW, "            [wcnf.append(s, weight=1) for s in softc]\n", "            for s in softc:\n                wcnf.append(s, weight=1)\n")
+V("s-w-not-result", "silent", W_PROPS, SW, "            if result == False:\n", "            if not result:\n")
+V("s-w-intersection", "silent", W_PROPS, SW, "for xi_i in xi_i_set & xi_i_prime_set:", "for xi_i in xi_i_set.intersection(xi_i_prime_set):")
+V("s-w-subset-operator", "silent", W_PROPS, SW, "return all(any(a.issubset(b) for a in A) for b in B)", "return all(any(a <= b for a in A) for b in B)")
+V("s-w-subset-loops", "silent", W_PROPS, SW, "    return all(any(a.issubset(b) for a in A) for b in B)\n",
+  "    for b in B:\n        if not any(a.issubset(b) for a in A):\n            return False\n    return True\n")
+V("s-w-difference", "silent", W_PROPS, SW, "for i in frozenset(part) - xi_i:", "for i in frozenset(part).difference(xi_i):")
+V("f-w-soft-hard", "fire", W_PROPS, SW, "[wcnf.append(s, weight=1) for s in softc]", "[wcnf.append(s) for s in softc]")
+V("f-w-query-sides", "fire", W_PROPS, SW, "        [wcnf.append(c) for c in self.epistemic_state[\"query_v_cnf\"]]\n        [wcnf_prime.append(c) for c in self.epistemic_state[\"query_f_cnf\"]]\n",
+  "        [wcnf.append(c) for c in self.epistemic_state[\"query_f_cnf\"]]\n        [wcnf_prime.append(c) for c in self.epistemic_state[\"query_v_cnf\"]]\n")
+V("f-w-ignore-inverted", "fire", W_PROPS, SW, "            if sublist != part\n", "            if sublist == part\n")
+V("f-w-subset-direction", "fire", W_PROPS, SW, "all(any(a.issubset(b) for a in A) for b in B)", "all(any(b.issubset(a) for a in A) for b in B)")
+V("f-w-quantifiers", "fire", W_PROPS, SW, "all(any(a.issubset(b) for a in A) for b in B)", "any(all(a.issubset(b) for a in A) for b in B)")
+V("f-w-tie-constraints-swapped", "fire", W_PROPS, SW, "                    for c in self.epistemic_state[\"f_cnf_dict\"][i]\n", "                    for c in self.epistemic_state[\"nf_cnf_dict\"][i]\n")
+V("f-w-no-descent", "fire", W_PROPS, SW, "                hard_constraints_new, partition_index - 1, deadline\n", "                hard_constraints_new, partition_index, deadline\n")
+V("f-w-result-polarity", "fire", W_PROPS, SW, "            if result == False:\n                return False\n", "            if result == True:\n                return False\n")
+V("f-w-preprocess-slots", "fire", W_PROPS, SW, "tseitin_transformation.belief_base_to_cnf(False, True, True)", "tseitin_transformation.belief_base_to_cnf(False, False, True)")
+V("f-w-tie-layer0", "fire", W_PROPS, SW, "            if partition_index == 0:\n                return False\n            hard_constraints_new", "            if partition_index == 0:\n                return True\n            hard_constraints_new")
+V("f-w-no-subset-exit", "fire", W_PROPS, SW, "        if not any_subset_of_all(xi_i_set, xi_i_prime_set):\n            return False\n", "        if not any_subset_of_all(xi_i_prime_set, xi_i_set):\n            return False\n")
+
 
 def main():
     hv = os.path.join(HERE, "harvested.json")
